@@ -308,6 +308,73 @@ pub fn run(ctx: &Ctx, rec: &mut Rec) {
                     tampers.push(Tamper { kind: "bit-run-single-flip", set: vec![(u, if honest[u].is_one() { Fq::ZERO } else { Fq::ONE })], desc: format!("flip bit {j} of a {l}-bit decomposition") });
                 }
             }
+            // bit decompositions read off the *packing* linear combinations (a row with >= 200 terms whose coefficients
+            // are +-2^j on distinct witnesses): exact bit positions whichever of the bits are hints and whichever are
+            // derived or fixed by other constraints. The other integer representatives v +- p of the packed residue are
+            // presented on the hint members; propagation fills in the rest.
+            {
+                let mut pow2: std::collections::HashMap<Vec<u8>, usize> = Default::default();
+                let mut x = Fq::ONE;
+                for j in 0..256usize {
+                    pow2.insert(fqb(&x).to_bytes_le(), j);
+                    x = x + x;
+                }
+                let mut seen_sets: std::collections::HashSet<Vec<usize>> = Default::default();
+                for rows in [&sys.a, &sys.bm, &sys.c] {
+                    for row in rows.iter() {
+                        if row.len() < 200 {
+                            continue;
+                        }
+                        for sign in [Fq::ONE, -Fq::ONE] {
+                            let mut by_pos: std::collections::BTreeMap<usize, usize> = Default::default();
+                            for (k, var) in row {
+                                if *var < sys.ninst {
+                                    continue;
+                                }
+                                if let Some(j) = pow2.get(&fqb(&(*k * sign)).to_bytes_le()) {
+                                    if honest[*var].is_zero() || honest[*var].is_one() {
+                                        by_pos.entry(*j).or_insert(*var);
+                                    }
+                                }
+                            }
+                            let l = by_pos.len();
+                            if l < 200 || by_pos.keys().next_back().copied().unwrap_or(0) != l - 1 {
+                                continue;
+                            }
+                            let vars: Vec<usize> = by_pos.values().copied().collect();
+                            if !seen_sets.insert(vars.clone()) {
+                                continue;
+                            }
+                            let mut v = b(0);
+                            for (j, u) in vars.iter().enumerate() {
+                                if honest[*u].is_one() {
+                                    v |= b(1) << j;
+                                }
+                            }
+                            let cap = b(1) << l;
+                            let mut alts: Vec<(&'static str, B)> = Vec::new();
+                            if &v + pm < cap {
+                                alts.push(("bit-run+p", &v + pm));
+                            }
+                            if &v >= pm {
+                                alts.push(("bit-run-p", &v - pm));
+                            }
+                            // when v is the canonical residue and v + p overflows the run, the residue of v + p
+                            // modulo 2^l is still worth presenting (the top bits may be derived elsewhere)
+                            alts.push(("bit-run+p", (&v + pm) % &cap));
+                            for (kind, nv) in alts {
+                                if nv == v {
+                                    continue;
+                                }
+                                let set: Vec<(usize, Fq)> = vars.iter().enumerate().filter(|(_, u)| hints.contains(u)).map(|(j, u)| (*u, if nv.bit(j as u64) { Fq::ONE } else { Fq::ZERO })).collect();
+                                if !set.is_empty() {
+                                    tampers.push(Tamper { kind, set, desc: format!("{kind} on the {l}-bit decomposition (read off its packing constraint) of {}: bits of {}", hexs(&v), hexs(&nv)) });
+                                }
+                            }
+                        }
+                    }
+                }
+            }
             for (pos, u) in hints.iter().enumerate() {
                 if in_run(pos) {
                     continue;
